@@ -188,6 +188,8 @@ pub struct Sess<'a, S: Scheme> {
     pub points: Vec<S::Pt>,
     pub prover: Prover<S>,
     pub verifier: Verifier<S>,
+    /// bytes the prover's RNG handed out during `commit`
+    pub commit_rng_bytes: u64,
 }
 
 /// Why a session could not be brought up (used by the admission oracles of C04 / C17).
@@ -298,15 +300,15 @@ impl<'a, S: Scheme> Sess<'a, S> {
         if order.iter().enumerate().any(|(i, &x)| i != x) {
             stats.fire("reorder-prover");
         }
-        let mut rng_p = SimRng::new(scn.seed, "prover", 0).logged(log);
-        hyrax_seed(Some(mix64(scn.seed, "hyrax-blinders", 0)));
+        let mut rng_p = SimRng::new(scn.seed, "prover", env.prover_rng_stream).logged(log);
+        hyrax_seed(Some(mix64(scn.seed, "hyrax-blinders", env.prover_rng_stream)));
         let listed: Vec<&LabeledPolynomial<S::F, S::P>> = order.iter().map(|&i| &polys[i]).collect();
         let committed = step(|| PcOf::<S>::commit(&ck, listed.iter().copied(), Some(&mut rng_p)));
         let (comms_o, states_o) = match committed {
             Outcome::Ok(x) => x,
             o => return Err(StartError::Refused("commit", o.describe())),
         };
-        rng_p.mark("commit");
+        let commit_rng_bytes = rng_p.mark("commit");
         stats.steps += 1;
         if comms_o.len() != polys.len() || states_o.len() != polys.len() {
             return Err(StartError::Refused("commit", format!("returned {} commitments for {} polynomials", comms_o.len(), polys.len())));
@@ -348,7 +350,7 @@ impl<'a, S: Scheme> Sess<'a, S> {
         let sv = sp.fork();
         let prover = Prover { ck, polys, comms, states, sponge: sp, rng: rng_p, order };
         let verifier = Verifier { vk, comms: v_comms, sponge: sv, rng: SimRng::new(scn.seed, "verifier", 0).logged(log) };
-        Ok(Sess { scn, log: log.clone(), stats, pp_bytes, points, prover, verifier })
+        Ok(Sess { scn, log: log.clone(), stats, pp_bytes, points, prover, verifier, commit_rng_bytes })
     }
 
     /// ground truth of the reference model
